@@ -141,9 +141,15 @@ func (sdbh *SemaDBHandlers) HandleListCollections(w http.ResponseWriter, r *http
 		log.Error().Err(err).Msg("ListCollections failed")
 		return
 	}
-	colItems := make([]ListCollectionItem, len(collections))
-	for i, col := range collections {
-		colItems[i] = ListCollectionItem{Id: col.Id, VectorSize: col.IndexSchema["vector"].VectorVamana.VectorSize, DistanceMetric: col.IndexSchema["vector"].VectorVamana.DistanceMetric}
+	colItems := make([]ListCollectionItem, 0, len(collections))
+	for _, col := range collections {
+		// Collections created with a later API version cannot be described or
+		// used with the v1 API, so they are not listed here.
+		vectorParams, err := v1VectorParams(col)
+		if err != nil {
+			continue
+		}
+		colItems = append(colItems, ListCollectionItem{Id: col.Id, VectorSize: vectorParams.VectorSize, DistanceMetric: vectorParams.DistanceMetric})
 	}
 	resp := ListCollectionsResponse{Collections: colItems}
 	utils.Encode(w, http.StatusOK, resp)
@@ -206,7 +212,7 @@ type GetCollectionResponse struct {
 // namespace but may have any schema, those cannot be served by the v1 endpoints.
 func v1VectorParams(collection models.Collection) (*models.IndexVectorVamanaParameters, error) {
 	schema, ok := collection.IndexSchema["vector"]
-	if !ok || schema.VectorVamana == nil {
+	if !ok || schema.Type != models.IndexTypeVectorVamana || schema.VectorVamana == nil {
 		return nil, fmt.Errorf("collection %s is not a v1 collection, please use a later API version", collection.Id)
 	}
 	return schema.VectorVamana, nil
